@@ -5,6 +5,7 @@
 
 #include <nano/core/verif.h>
 #include <nano/dataset.h>
+#include <nano/dataset/iterator.h>
 #include <nano/generator/elemwise_gradient.h>
 #include <nano/generator/elemwise_identity.h>
 #include <nano/generator/pairwise_product.h>
@@ -354,41 +355,10 @@ bool throws(const top& op)
     return false;
 }
 
-// ---------------------------------------------------------------------------------------
-// the check
-// ---------------------------------------------------------------------------------------
-verdict_t check_case(const case_t& c, ctx_t& ctx)
+// builds the generator stack of the case on `dataset` and returns its reference model (one entry per generated feature)
+std::vector<mfeat_t> build_stack(const case_t& c, const std::vector<int>& inputs, nano::dataset_t& dataset)
 {
-    const auto& d = c.data;
-    if (!d.valid() || c.lists.empty() || c.gen_kind.empty())
-    {
-        return verdict_t::discard("malformed-case");
-    }
-    for (const auto& l : c.lists)
-    {
-        if (l.empty())
-        {
-            return verdict_t::discard("empty-sample-list");
-        }
-        for (const auto s : l)
-        {
-            if (s < 0 || s >= d.samples)
-            {
-                return verdict_t::discard("sample-list-out-of-range");
-            }
-        }
-    }
-    nano::verif::rng_state().store(c.rng * 2 + 1);
-
-    const auto inputs = d.inputs();
-    const auto source = make_datasource(d);
-    if (source->samples() != d.samples || source->features() != static_cast<nano::tensor_size_t>(inputs.size()))
-    {
-        return verdict_t::violation("C08/datasource/shape", cat("samples=", source->samples(), " features=", source->features()));
-    }
-    auto dataset = nano::dataset_t{*source, static_cast<size_t>(c.threads)};
-
-    // -- build the generator stack and its model -------------------------------------------
+    const auto&          d = c.data;
     std::vector<mfeat_t> model;
     const auto           kind_of = [&](int input) { return d.spec(inputs[static_cast<size_t>(input)]); };
     for (size_t g = 0; g < c.gen_kind.size(); ++g)
@@ -522,6 +492,45 @@ verdict_t check_case(const case_t& c, ctx_t& ctx)
         }
     }
 
+    return model;
+}
+
+// ---------------------------------------------------------------------------------------
+// the check
+// ---------------------------------------------------------------------------------------
+verdict_t check_case(const case_t& c, ctx_t& ctx)
+{
+    const auto& d = c.data;
+    if (!d.valid() || c.lists.empty() || c.gen_kind.empty())
+    {
+        return verdict_t::discard("malformed-case");
+    }
+    for (const auto& l : c.lists)
+    {
+        if (l.empty())
+        {
+            return verdict_t::discard("empty-sample-list");
+        }
+        for (const auto s : l)
+        {
+            if (s < 0 || s >= d.samples)
+            {
+                return verdict_t::discard("sample-list-out-of-range");
+            }
+        }
+    }
+    nano::verif::rng_state().store(c.rng * 2 + 1);
+
+    const auto inputs = d.inputs();
+    const auto source = make_datasource(d);
+    if (source->samples() != d.samples || source->features() != static_cast<nano::tensor_size_t>(inputs.size()))
+    {
+        return verdict_t::violation("C08/datasource/shape", cat("samples=", source->samples(), " features=", source->features()));
+    }
+    auto dataset = nano::dataset_t{*source, static_cast<size_t>(c.threads)};
+
+    // -- build the generator stack and its model -------------------------------------------
+    const auto model = build_stack(c, inputs, dataset);
     // -- bookkeeping ---------------------------------------------------------------------------
     const auto nfeat = static_cast<int>(model.size());
     if (dataset.features() != nfeat)
@@ -1068,11 +1077,400 @@ verdict_t check_case(const case_t& c, ctx_t& ctx)
     ctx.nontrivial = kinds.size() >= 2 && any_missing && any_present && repeat && queried_changed;
     return verdict_t::ok();
 }
+
+// ---------------------------------------------------------------------------------------
+// iterators: the (multi-threaded) dataset iterators deliver every feature / every sample range exactly once,
+// with a worker id below the dataset's concurrency, and exactly the values of the direct views (which the `views`
+// sub-check compares with the reference model); scaling is off (C14/C09 own the scaling), caching on and off.
+// ---------------------------------------------------------------------------------------
+bool same_value(double a, double b)
+{
+    return (std::isnan(a) && std::isnan(b)) || a == b;
+}
+
+verdict_t check_iterators(const case_t& c, ctx_t& ctx)
+{
+    const auto& d = c.data;
+    if (!d.valid() || c.lists.empty() || c.gen_kind.empty() || c.op_arg.empty())
+    {
+        return verdict_t::discard("malformed-case");
+    }
+    for (const auto& l : c.lists)
+    {
+        if (l.empty())
+        {
+            return verdict_t::discard("empty-sample-list");
+        }
+        for (const auto s : l)
+        {
+            if (s < 0 || s >= d.samples)
+            {
+                return verdict_t::discard("sample-list-out-of-range");
+            }
+        }
+    }
+    nano::verif::rng_state().store(c.rng * 2 + 1);
+
+    const auto inputs  = d.inputs();
+    const auto source  = make_datasource(d);
+    auto       dataset = nano::dataset_t{*source, static_cast<size_t>(c.threads)};
+    const auto model   = build_stack(c, inputs, dataset);
+    const auto nfeat   = static_cast<int>(model.size());
+    const auto ncols   = static_cast<int>(dataset.columns());
+    const auto workers = dataset.concurrency();
+    if (workers != static_cast<size_t>(std::min(c.threads, 16)) && workers != static_cast<size_t>(c.threads))
+    {
+        return verdict_t::violation("C08/iterators/concurrency", cat("concurrency()=", workers, " requested ", c.threads));
+    }
+
+    const auto& list    = c.lists[0];
+    const auto  samples = to_indices(list);
+    const auto  n       = static_cast<nano::tensor_size_t>(list.size());
+
+    try
+    {
+        // -- select iterator: all features of each kind, and a generated subset (with repetitions) ----------
+        const auto            iterator = nano::select_iterator_t{dataset};
+        std::mutex            mutex;
+        std::vector<int>      hits;
+        std::string           error;
+        std::vector<int>      subset;
+        for (size_t i = 0; i < c.op_arg.size() && nfeat > 0; ++i)
+        {
+            subset.push_back(c.op_arg[i] % nfeat);
+        }
+        const auto note = [&](const std::string& what)
+        {
+            if (error.empty())
+            {
+                error = what;
+            }
+        };
+        const auto run_kind = [&](const int kind, const bool use_subset) -> verdict_t
+        {
+            // expected multiplicity per feature
+            std::vector<int> expected(static_cast<size_t>(nfeat), 0);
+            std::vector<int> wanted;
+            for (int j = 0; j < nfeat; ++j)
+            {
+                const auto f  = dataset.feature(j);
+                const bool is = kind == 0 ? f.is_sclass() : kind == 1 ? f.is_mclass() : kind == 2 ? f.is_scalar() : f.is_struct();
+                if (is)
+                {
+                    wanted.push_back(j);
+                }
+            }
+            std::vector<int> chosen;
+            if (use_subset)
+            {
+                for (const auto j : subset)
+                {
+                    if (std::find(wanted.begin(), wanted.end(), j) != wanted.end())
+                    {
+                        chosen.push_back(j);
+                    }
+                }
+            }
+            else
+            {
+                chosen = wanted;
+            }
+            for (const auto j : chosen)
+            {
+                expected[static_cast<size_t>(j)]++;
+            }
+            hits.assign(static_cast<size_t>(nfeat), 0);
+            error.clear();
+            const auto features = to_indices(chosen);
+
+            // the callbacks run on the pool's threads: record under a mutex, compare with the direct view
+            nano::sclass_mem_t sb;
+            nano::mclass_mem_t mb;
+            nano::scalar_mem_t cb;
+            nano::struct_mem_t ub;
+            const auto common = [&](nano::tensor_size_t ifeature, size_t tnum)
+            {
+                if (tnum >= workers)
+                {
+                    note(cat("worker id ", tnum, " >= concurrency ", workers));
+                }
+                if (ifeature < 0 || ifeature >= nfeat)
+                {
+                    note(cat("feature ", ifeature, " out of range"));
+                    return false;
+                }
+                hits[static_cast<size_t>(ifeature)]++;
+                return true;
+            };
+            if (chosen.empty() && use_subset)
+            {
+                return verdict_t::ok();
+            }
+            switch (kind)
+            {
+            case 0:
+            {
+                const nano::sclass_callback_t op = [&](nano::tensor_size_t ifeature, size_t tnum, nano::sclass_cmap_t values)
+                {
+                    const std::scoped_lock lock(mutex);
+                    if (!common(ifeature, tnum))
+                    {
+                        return;
+                    }
+                    const auto direct = dataset.select(samples, ifeature, sb);
+                    bool       ok     = values.size() == direct.size();
+                    for (nano::tensor_size_t i = 0; ok && i < direct.size(); ++i)
+                    {
+                        ok = values(i) == direct(i);
+                    }
+                    if (!ok)
+                    {
+                        note(cat("sclass feature ", ifeature, ": delivered values differ from the direct view"));
+                    }
+                };
+                use_subset ? iterator.loop(samples, features, op) : iterator.loop(samples, op);
+                break;
+            }
+            case 1:
+            {
+                const nano::mclass_callback_t op = [&](nano::tensor_size_t ifeature, size_t tnum, nano::mclass_cmap_t values)
+                {
+                    const std::scoped_lock lock(mutex);
+                    if (!common(ifeature, tnum))
+                    {
+                        return;
+                    }
+                    const auto direct = dataset.select(samples, ifeature, mb);
+                    bool       ok     = values.dims() == direct.dims();
+                    for (nano::tensor_size_t i = 0; ok && i < direct.size(); ++i)
+                    {
+                        ok = values(i) == direct(i);
+                    }
+                    if (!ok)
+                    {
+                        note(cat("mclass feature ", ifeature, ": delivered values differ from the direct view"));
+                    }
+                };
+                use_subset ? iterator.loop(samples, features, op) : iterator.loop(samples, op);
+                break;
+            }
+            case 2:
+            {
+                const nano::scalar_callback_t op = [&](nano::tensor_size_t ifeature, size_t tnum, nano::scalar_cmap_t values)
+                {
+                    const std::scoped_lock lock(mutex);
+                    if (!common(ifeature, tnum))
+                    {
+                        return;
+                    }
+                    const auto direct = dataset.select(samples, ifeature, cb);
+                    bool       ok     = values.size() == direct.size();
+                    for (nano::tensor_size_t i = 0; ok && i < direct.size(); ++i)
+                    {
+                        ok = same_value(values(i), direct(i));
+                    }
+                    if (!ok)
+                    {
+                        note(cat("scalar feature ", ifeature, ": delivered values differ from the direct view"));
+                    }
+                };
+                use_subset ? iterator.loop(samples, features, op) : iterator.loop(samples, op);
+                break;
+            }
+            default:
+            {
+                const nano::struct_callback_t op = [&](nano::tensor_size_t ifeature, size_t tnum, nano::struct_cmap_t values)
+                {
+                    const std::scoped_lock lock(mutex);
+                    if (!common(ifeature, tnum))
+                    {
+                        return;
+                    }
+                    const auto direct = dataset.select(samples, ifeature, ub);
+                    bool       ok     = values.dims() == direct.dims();
+                    for (nano::tensor_size_t i = 0; ok && i < direct.size(); ++i)
+                    {
+                        ok = same_value(values(i), direct(i));
+                    }
+                    if (!ok)
+                    {
+                        note(cat("structured feature ", ifeature, ": delivered values differ from the direct view"));
+                    }
+                };
+                use_subset ? iterator.loop(samples, features, op) : iterator.loop(samples, op);
+                break;
+            }
+            }
+            static const char* names[] = {"sclass", "mclass", "scalar", "struct"};
+            if (!error.empty())
+            {
+                return verdict_t::violation(cat("C08/iterators/select/", names[kind], "/delivery"), error);
+            }
+            for (int j = 0; j < nfeat; ++j)
+            {
+                if (hits[static_cast<size_t>(j)] != expected[static_cast<size_t>(j)])
+                {
+                    return verdict_t::violation(cat("C08/iterators/select/", names[kind], use_subset ? "/subset-not-exactly-once" : "/not-exactly-once"),
+                                                cat("feature ", j, " delivered ", hits[static_cast<size_t>(j)], " times, expected ", expected[static_cast<size_t>(j)], " (", chosen.size(),
+                                                    " features requested, ", workers, " workers)"));
+                }
+            }
+            return verdict_t::ok();
+        };
+        for (int kind = 0; kind < 4; ++kind)
+        {
+            for (const bool use_subset : {false, true})
+            {
+                if (const auto v = run_kind(kind, use_subset); !v.is_ok())
+                {
+                    return v;
+                }
+            }
+        }
+
+        // -- flatten / targets iterators: ranges tile [0, n) in batches, each delivered once with the direct values ----
+        const auto batch      = static_cast<nano::tensor_size_t>(1 + c.op_arg[0] % std::max<int>(1, 2 * static_cast<int>(n)));
+        const bool has_target = d.target >= 0;
+        int        chunks     = 0;
+        if (ncols > 0)
+        {
+            nano::tensor2d_t direct_buffer;
+            nano::tensor4d_t direct_targets;
+            for (const bool cached : {false, true})
+            {
+                auto iterator2 = nano::flatten_iterator_t{dataset, samples};
+                iterator2.batch(batch);
+                iterator2.scaling(nano::scaling_type::none);
+                if (cached)
+                {
+                    const auto ok1 = iterator2.cache_flatten(std::numeric_limits<nano::tensor_size_t>::max());
+                    const auto ok2 = !has_target || iterator2.cache_targets(std::numeric_limits<nano::tensor_size_t>::max());
+                    if (!ok1 || !ok2)
+                    {
+                        return verdict_t::violation("C08/iterators/flatten/cache-refused", cat("cache_flatten=", ok1, " cache_targets=", ok2));
+                    }
+                }
+                struct delivery_t
+                {
+                    nano::tensor_size_t begin, end;
+                    size_t              tnum;
+                    std::vector<double> flat, targets;
+                };
+                std::vector<delivery_t> deliveries;
+                const auto              record = [&](nano::tensor_range_t range, size_t tnum, const nano::tensor2d_cmap_t* flat, const nano::tensor4d_cmap_t* targets)
+                {
+                    delivery_t dv{range.begin(), range.end(), tnum, {}, {}};
+                    if (flat != nullptr)
+                    {
+                        dv.flat.assign(flat->data(), flat->data() + flat->size());
+                    }
+                    if (targets != nullptr)
+                    {
+                        dv.targets.assign(targets->data(), targets->data() + targets->size());
+                    }
+                    const std::scoped_lock lock(mutex);
+                    deliveries.push_back(std::move(dv));
+                };
+                const auto verify = [&](const char* which, const bool with_flat, const bool with_targets) -> verdict_t
+                {
+                    std::sort(deliveries.begin(), deliveries.end(), [](const delivery_t& a, const delivery_t& b) { return a.begin < b.begin; });
+                    nano::tensor_size_t next = 0;
+                    for (const auto& dv : deliveries)
+                    {
+                        if (dv.tnum >= workers)
+                        {
+                            return verdict_t::violation(cat("C08/iterators/", which, "/worker-id"), cat("worker id ", dv.tnum, " >= concurrency ", workers));
+                        }
+                        if (dv.begin != next || dv.end != std::min(dv.begin + batch, n))
+                        {
+                            return verdict_t::violation(cat("C08/iterators/", which, "/ranges-do-not-tile"),
+                                                        cat("range [", dv.begin, ",", dv.end, ") after ", next, " with batch ", batch, " of ", n, " samples"));
+                        }
+                        next             = dv.end;
+                        const auto count = dv.end - dv.begin;
+                        const auto sub   = samples.slice(dv.begin, dv.end);
+                        if (with_flat)
+                        {
+                            const auto direct = dataset.flatten(sub, direct_buffer);
+                            bool       ok     = static_cast<nano::tensor_size_t>(dv.flat.size()) == count * ncols;
+                            for (nano::tensor_size_t i = 0; ok && i < count * ncols; ++i)
+                            {
+                                const auto want = std::isfinite(direct(i)) ? direct(i) : 0.0; // missing values become zero in the dense iterator
+                                ok              = dv.flat[static_cast<size_t>(i)] == want;
+                            }
+                            if (!ok)
+                            {
+                                return verdict_t::violation(cat("C08/iterators/", which, cached ? "/cached" : "/uncached", "/flatten-values"),
+                                                            cat("range [", dv.begin, ",", dv.end, ") differs from the direct flatten view"));
+                            }
+                        }
+                        if (with_targets)
+                        {
+                            const auto direct = dataset.targets(sub, direct_targets);
+                            bool       ok     = static_cast<nano::tensor_size_t>(dv.targets.size()) == direct.size();
+                            for (nano::tensor_size_t i = 0; ok && i < direct.size(); ++i)
+                            {
+                                ok = dv.targets[static_cast<size_t>(i)] == direct(i);
+                            }
+                            if (!ok)
+                            {
+                                return verdict_t::violation(cat("C08/iterators/", which, cached ? "/cached" : "/uncached", "/targets-values"),
+                                                            cat("range [", dv.begin, ",", dv.end, ") differs from the direct targets view"));
+                            }
+                        }
+                    }
+                    if (next != n)
+                    {
+                        return verdict_t::violation(cat("C08/iterators/", which, "/ranges-do-not-cover"), cat("covered ", next, " of ", n));
+                    }
+                    chunks = std::max(chunks, static_cast<int>(deliveries.size()));
+                    return verdict_t::ok();
+                };
+
+                deliveries.clear();
+                iterator2.loop([&](nano::tensor_range_t range, size_t tnum, nano::tensor2d_cmap_t flat) { record(range, tnum, &flat, nullptr); });
+                if (const auto v = verify("flatten", true, false); !v.is_ok())
+                {
+                    return v;
+                }
+                if (has_target)
+                {
+                    deliveries.clear();
+                    iterator2.loop([&](nano::tensor_range_t range, size_t tnum, nano::tensor2d_cmap_t flat, nano::tensor4d_cmap_t targets)
+                                   { record(range, tnum, &flat, &targets); });
+                    if (const auto v = verify("flatten+targets", true, true); !v.is_ok())
+                    {
+                        return v;
+                    }
+                    deliveries.clear();
+                    iterator2.loop([&](nano::tensor_range_t range, size_t tnum, nano::tensor4d_cmap_t targets) { record(range, tnum, nullptr, &targets); });
+                    if (const auto v = verify("targets", false, true); !v.is_ok())
+                    {
+                        return v;
+                    }
+                }
+            }
+        }
+
+        ctx.label(cat("threads:", c.threads == 1 ? "1" : c.threads <= 3 ? "2-3" : c.threads <= 8 ? "4-8" : "9-16"));
+        ctx.label_if(ncols == 0, "no-flatten-columns");
+        ctx.label_if(chunks >= 2, "several-batches");
+        ctx.label_if(nfeat >= 2 * static_cast<int>(workers), "more-features-than-2x-workers");
+        ctx.label_if(has_target, "with-target");
+        ctx.nontrivial = nfeat >= 2 && workers >= 2 && chunks >= 2;
+        return verdict_t::ok();
+    }
+    catch (const std::exception& e)
+    {
+        return verdict_t::violation("C08/iterators/exception", e.what());
+    }
+}
 } // namespace
 
 int main(int argc, char** argv)
 {
     suite_t suite("C08");
     suite.add<case_t>("views", gen_case, check_case, 1.0);
+    suite.add<case_t>("iterators", gen_case, check_iterators, 0.6);
     return suite.main(argc, argv);
 }
